@@ -28,6 +28,7 @@ package mqttproxy
 import (
 	"bytes"
 	"encoding/json"
+	"fmt"
 	"net"
 	"net/http"
 	"net/http/httptest"
@@ -35,6 +36,7 @@ import (
 	"sort"
 	"strings"
 	"sync"
+	"sync/atomic"
 	"testing"
 	"time"
 
@@ -201,6 +203,7 @@ type c16Run struct {
 	mu       sync.Mutex
 	conns    map[int]*c16Conn
 	wantPuts int
+	live     int32 // connections whose CONNECT was accepted and that have not been ended
 }
 
 func c16Wait(cond func() bool) bool {
@@ -339,6 +342,7 @@ func (r *c16Run) do(a c16Action) (bool, int, string) {
 		r.mu.Lock()
 		hc.connected = true
 		r.mu.Unlock()
+		atomic.AddInt32(&r.live, 1)
 		r.addPut() // updateEGName stores the session once
 		if e := r.ping(sock, nil); e != "" {
 			return false, code, "ping-" + e
@@ -396,26 +400,29 @@ func (r *c16Run) do(a c16Action) (bool, int, string) {
 		r.mu.Lock()
 		hc.dropped = true
 		r.mu.Unlock()
+		atomic.AddInt32(&r.live, -1)
+		// Connections are ended without leaving TIME_WAIT sockets behind (tens of
+		// thousands of cases per run): a network drop is a TCP reset; a clean end is a
+		// DISCONNECT packet followed, once the broker is done, by a reset of our side.
+		// "Done" = the connection's handleConn goroutine is gone, i.e. readLoop's
+		// deferred cleanup (closeAndDelSession, removeClient) has run.
+		tc, _ := hc.sock.(*net.TCPConn)
 		if a.Disc {
 			dp := packets.NewControlPacket(packets.Disconnect)
 			dp.Write(hc.sock)
-		} else if tc, ok := hc.sock.(*net.TCPConn); ok {
-			tc.CloseWrite()
+		} else if tc != nil {
+			tc.SetLinger(0)
+			tc.Close()
 		}
-		// the broker closes its side when handleConn returns, i.e. after the
-		// deferred cleanup of readLoop has run
-		buf := make([]byte, 256)
-		hc.sock.SetReadDeadline(time.Now().Add(3 * time.Second))
-		for {
-			_, err := hc.sock.Read(buf)
-			if err != nil {
-				hc.sock.Close()
-				if c16ErrClass(err) == "timeout" {
-					return false, -1, "teardown-timeout"
-				}
-				return false, -1, ""
-			}
+		ok := c16Wait(func() bool { return c16Handlers() <= int(atomic.LoadInt32(&r.live)) })
+		if tc != nil {
+			tc.SetLinger(0)
 		}
+		hc.sock.Close()
+		if !ok {
+			return false, -1, "teardown-timeout"
+		}
+		return false, -1, ""
 	case "admindel":
 		body, _ := json.Marshal(HTTPSessions{Sessions: []*HTTPSession{{SessionID: c16Cid}}})
 		req := httptest.NewRequest(http.MethodDelete, "/mqttproxy/x/session/delete", bytes.NewReader(body))
@@ -511,6 +518,20 @@ func c16ReadLoopsParked() bool {
 	return true
 }
 
+// c16Handlers counts the goroutines running Broker.handleConn.
+func c16Handlers() int {
+	buf := make([]byte, 1<<16)
+	for {
+		n := runtime.Stack(buf, true)
+		if n < len(buf) {
+			buf = buf[:n]
+			break
+		}
+		buf = make([]byte, 2*len(buf))
+	}
+	return strings.Count(string(buf), "\ngithub.com/megaease/easegress/pkg/object/mqttproxy.(*Broker).handleConn(")
+}
+
 func (r *c16Run) snap() c16Snap {
 	r.settlePuts()
 	c16Wait(c16ReadLoopsParked)
@@ -580,7 +601,8 @@ func c16Exec(raw json.RawMessage) interface{} {
 	st := c16NewStore()
 	b := newBroker(spec, st, nil, func(s, ss string) ([]string, error) { return nil, nil })
 	if b == nil {
-		return map[string]string{"error": "no-broker"}
+		_, lerr := net.Listen("tcp", ":0")
+		return map[string]string{"error": "no-broker", "detail": fmt.Sprint(lerr)}
 	}
 	defer b.close()
 	r := &c16Run{b: b, st: st, conns: map[int]*c16Conn{}}
@@ -589,6 +611,9 @@ func c16Exec(raw json.RawMessage) interface{} {
 		r.mu.Lock()
 		for _, c := range r.conns {
 			if c.sock != nil {
+				if tc, ok := c.sock.(*net.TCPConn); ok {
+					tc.SetLinger(0)
+				}
 				c.sock.Close()
 			}
 		}
